@@ -1,7 +1,7 @@
 (* DocProofs.v — the inline pass keeps the shape of the block tree, and every inline text of a document is parsed with
    one and the same reference table: the table the block pass has completed (whole-document scope of definitions). *)
 From Coq Require Import ZArith List Bool Lia Arith.
-From Verif Require Import PyStr Rx Inline Block Doc BlockTyping BlockLevels.
+From Verif Require Import PyStr Rx Inline Block Doc BlockTyping BlockLevels BlockDepth.
 Import ListNotations.
 Local Open Scope nat_scope.
 
@@ -12,6 +12,15 @@ Fixpoint node_ok (n : node) : bool :=
   | NQuote ch => forallb node_ok ch
   | NList items _ _ _ _ _ => forallb (fun it => match it with NListItem ch => forallb node_ok ch | _ => false end) items
   | NListItem _ => false
+  | _ => true
+  end.
+
+(* at most k levels of containers (quote or list) *)
+Fixpoint nfits (k : nat) (n : node) {struct n} : bool :=
+  match n with
+  | NQuote ch => match k with O => false | S k' => forallb (nfits k') ch end
+  | NList items _ _ _ _ _ => match k with O => false | S k' => forallb (nfits k') items end
+  | NListItem ch => forallb (nfits k) ch
   | _ => true
   end.
 
@@ -86,5 +95,34 @@ Theorem inline_pass_all_ok toks ns : all_res (map (inline_pass C) toks) = Ok ns 
 Proof.
   intros H Hp. apply (all_res_forallb (inline_pass C) btok_ok node_ok toks ns); [|exact H|exact Hp].
   intros x y _ Hx. apply inline_pass_ok. exact Hx.
+Qed.
+
+Lemma inline_pass_fits_n : forall sz t n j, bsize t <= sz -> inline_pass C t = Ok n -> fits j t = true -> nfits j n = true.
+Proof.
+  induction sz as [|sz IH]; intros t n j Hk H; [destruct t; cbn in Hk; lia|].
+  assert (Hrec : forall l c j', (forall x, In x l -> bsize x <= sz) -> all_res (map (inline_pass C) l) = Ok c ->
+                                forallb (fits j') l = true -> forallb (nfits j') c = true).
+  { intros l c j' Hsz E Hp. apply (all_res_forallb (inline_pass C) (fits j') (nfits j') l c); [|exact E|exact Hp].
+    intros x y Hin Hx. exact (IH x y j' (Hsz x Hin) Hx). }
+  destruct t as [| |raw f mk info|text lv se|text|text|ch|items ti b d o s|ch|raw]; cbn [inline_pass] in H; unfold bind in H.
+  - inversion H; reflexivity.
+  - inversion H; reflexivity.
+  - inversion H; reflexivity.
+  - destruct (inline_parse C _); inversion H; reflexivity.
+  - destruct (inline_parse C _); inversion H; reflexivity.
+  - destruct (inline_parse C _); inversion H; reflexivity.
+  - destruct (all_res (map (inline_pass C) ch)) as [c| |] eqn:E; inversion H; subst. cbn [fits nfits]. destruct j as [|j]; [intros Ht; exact Ht|].
+    apply (Hrec ch c j); [|exact E]. intros x Hin. pose proof (in_size _ _ Hin). cbn [bsize] in Hk. lia.
+  - destruct (all_res (map (inline_pass C) items)) as [c| |] eqn:E; inversion H; subst. cbn [fits nfits]. destruct j as [|j]; [intros Ht; exact Ht|].
+    apply (Hrec items c j); [|exact E]. intros x Hin. pose proof (in_size _ _ Hin). cbn [bsize] in Hk. lia.
+  - destruct (all_res (map (inline_pass C) ch)) as [c| |] eqn:E; inversion H; subst. cbn [fits nfits].
+    apply (Hrec ch c j); [|exact E]. intros x Hin. pose proof (in_size _ _ Hin). cbn [bsize] in Hk. lia.
+  - inversion H; reflexivity.
+Qed.
+
+Theorem inline_pass_all_fit j toks ns : all_res (map (inline_pass C) toks) = Ok ns -> all_fit j toks = true -> forallb (nfits j) ns = true.
+Proof.
+  intros H Hp. apply (all_res_forallb (inline_pass C) (fits j) (nfits j) toks ns); [|exact H|exact Hp].
+  intros x y _ Hx. exact (inline_pass_fits_n (bsize x) x y j (le_n _) Hx).
 Qed.
 End DocP.
